@@ -4,9 +4,24 @@
 #pragma once
 #include <new>
 #include <string.h>
-template <class T> struct PhantomStore { alignas(64) unsigned char b[sizeof(T)]; T& obj() { return *reinterpret_cast<T*>(b); } };
-// slot of a reference member that directly follows member `prev` (reference members have no address of their own)
-template <class P> static inline void** ref_slot_after(const P& prev) { uintptr_t a = (uintptr_t)(const void*)&prev + sizeof(P); a = (a + 7) & ~(uintptr_t)7; return (void**)a; }
+// The storage is a *typed* zero-initialised global (a union whose only non-trivial member is never constructed/destroyed by the
+// compiler), not a byte array: CBMC keeps typed struct members field-sensitive, whereas typed accesses into a large byte array lose
+// every constant (pointers, sizes) stored there. Use at namespace scope: `static PhantomStore<Chainstate> g_cs;`.
+template <class T> union PhantomStore {
+    char zero_;
+    T o;
+    constexpr PhantomStore() : zero_{0} {}
+    ~PhantomStore() {}
+    T& obj() { return o; }
+};
+// slot of a reference member of `obj` that directly follows member `prev` (reference members have no address of their own).
+// Pure pointer arithmetic relative to the object (no integer casts of addresses: CBMC would lose the target object).
+template <class O, class P> static inline void** ref_slot_after(O& obj, const P& prev)
+{
+    size_t off = (size_t)((const char*)(const void*)&prev - (const char*)(const void*)&obj) + sizeof(P);
+    off = (off + 7) & ~(size_t)7;
+    return (void**)((char*)(void*)&obj + off);
+}
 // store a value into a const member
 template <class T, class V> static inline void poke(const T& member, V v) { *const_cast<T*>(&member) = (T)v; }
 // CChain of symbolic height without allocating blocks: std::vector<CBlockIndex*> {begin, end, cap} with end = begin + (height+1).
